@@ -348,7 +348,10 @@ StepResult(st, o, c, sc) ==
          LET b == sc.obs[st.same_as] IN
          [C |-> c, why |->
             IF st.op = "dump" THEN
-                 (IF sc.obs[st.after].oc # "ok" \/ (Has(st, "stepat") /\ sc.obs[st.stepat].oc # "ok") THEN ""     \* (already reported at that step)
+                 \* the invariants of every dump hold whatever the two runs did
+                 (IF ~AllUniform(o) THEN "a table is not uniform or a tuple does not match its structure"
+                  ELSE IF \E j \in DOMAIN o.vars : o.vars[j].n = "$S" /\ ObsType(o.vars[j].val).m # "int" THEN "the $-variable changed its major type"
+                  ELSE IF sc.obs[st.after].oc # "ok" \/ (Has(st, "stepat") /\ sc.obs[st.stepat].oc # "ok") THEN ""     \* (already reported at that step)
                   ELSE IF ~SameVars(o, b) THEN "final variables differ between batch and statement-at-a-time execution" ELSE "")
             ELSE IF b.oc # "ok" THEN ""              \* the unit did not compile and run without error: nothing is promised
             ELSE IF o.oc # "ok" THEN "ran as one unit, but statement-at-a-time reported " \o o.oc \o " " \o Fld(o, "name", "")
